@@ -51,7 +51,7 @@ theorem validQos_iff (q : Nat) : validQos q = decide (q ≤ 2) := by
     have h2 : (q == 2) = false := by simp; omega
     simp [h0, h1, h2, h]
 
-theorem modelStep_sub (mt : MemTopics) (f : List UInt8) (q s : Nat) (hd : checkSys f = false) :
+theorem modelStep_sub (mt : MemTopics) (f : List UInt8) (q s : Nat) (hd : checkTopic f = false) :
     (modelStep mt (.sub f q s)).1.sroot =
       if q ≤ 2 then mt.sroot.sinsertL (levels f).1 (levels f).2 s q else mt.sroot := by
   simp only [modelStep, subscribe_of_not_sys _ _ _ _ _ hd, validQos_iff, SNode.sinsert]
@@ -61,24 +61,24 @@ theorem modelStep_sub (mt : MemTopics) (f : List UInt8) (q s : Nat) (hd : checkS
     cases (levels f).2 <;> rfl
   · simp [h]
 
-/-- a subscription to a topic beginning with '$' leaves the store alone -/
-theorem modelStep_sub_sys (mt : MemTopics) (f : List UInt8) (q s : Nat) (hd : checkSys f = true) :
+/-- a subscription to a topic beginning with '$', or to the empty topic, leaves the store alone -/
+theorem modelStep_sub_sys (mt : MemTopics) (f : List UInt8) (q s : Nat) (hd : checkTopic f = true) :
     (modelStep mt (.sub f q s)).1 = mt := by
   simp only [modelStep, subscribe_of_sys _ _ _ _ _ hd]
 
-theorem modelStep_unsub (mt : MemTopics) (f : List UInt8) (s : Nat) (hd : checkSys f = false) :
+theorem modelStep_unsub (mt : MemTopics) (f : List UInt8) (s : Nat) (hd : checkTopic f = false) :
     (modelStep mt (.unsub f s)).1.sroot = (mt.sroot.sremoveL (levels f).1 (levels f).2 (some s)).1 := by
   simp [modelStep, unsubscribe_of_not_sys _ _ _ hd, SNode.sremove]
 
-theorem modelStep_unsub_sys (mt : MemTopics) (f : List UInt8) (s : Nat) (hd : checkSys f = true) :
+theorem modelStep_unsub_sys (mt : MemTopics) (f : List UInt8) (s : Nat) (hd : checkTopic f = true) :
     (modelStep mt (.unsub f s)).1 = mt := by
   simp [modelStep, unsubscribe_of_sys _ _ _ hd]
 
-theorem modelStep_unsubAll (mt : MemTopics) (f : List UInt8) (hd : checkSys f = false) :
+theorem modelStep_unsubAll (mt : MemTopics) (f : List UInt8) (hd : checkTopic f = false) :
     (modelStep mt (.unsubAll f)).1.sroot = (mt.sroot.sremoveL (levels f).1 (levels f).2 none).1 := by
   simp [modelStep, unsubscribe_of_not_sys _ _ _ hd, SNode.sremove]
 
-theorem modelStep_unsubAll_sys (mt : MemTopics) (f : List UInt8) (hd : checkSys f = true) :
+theorem modelStep_unsubAll_sys (mt : MemTopics) (f : List UInt8) (hd : checkTopic f = true) :
     (modelStep mt (.unsubAll f)).1 = mt := by
   simp [modelStep, unsubscribe_of_sys _ _ _ hd]
 
@@ -226,7 +226,7 @@ theorem step_inv (mt : MemTopics) (subs : List Sub) (op : Op) (hg : good (opTopi
   cases op with
   | sub f q sub =>
     have hd : dollar f = false := good_not_dollar f hg
-    rw [modelStep_sub _ _ _ _ (good_checkSys f hg)]
+    rw [modelStep_sub _ _ _ _ (good_checkTopic f hg)]
     simp only [specSubs, hd, Bool.false_eq_true, ↓reduceIte]
     by_cases hq : q ≤ 2
     · have hq' : ¬ q > 2 := by omega
@@ -258,7 +258,7 @@ theorem step_inv (mt : MemTopics) (subs : List Sub) (op : Op) (hg : good (opTopi
       exact h
   | unsub f sub =>
     have hd : dollar f = false := good_not_dollar f hg
-    rw [modelStep_unsub _ _ _ (good_checkSys f hg)]
+    rw [modelStep_unsub _ _ _ (good_checkTopic f hg)]
     simp only [specSubs, hd, Bool.false_eq_true, ↓reduceIte]
     cases hv : validFilter f with
     | false =>
@@ -273,7 +273,7 @@ theorem step_inv (mt : MemTopics) (subs : List Sub) (op : Op) (hg : good (opTopi
       rw [absS_filter_some] at this
       exact this
   | unsubAll f =>
-    rw [modelStep_unsubAll _ _ (good_checkSys f hg)]
+    rw [modelStep_unsubAll _ _ (good_checkTopic f hg)]
     simp only [specSubs]
     cases hv : validFilter f with
     | false =>
@@ -311,73 +311,130 @@ theorem run_inv (ops : List Op) (hg : ∀ op ∈ ops, good (opTopic op) = true) 
   exact ⟨WF_empty, by simp [MemTopics.new, abs_empty, absS, Mqtt.Spec.TopicStore.empty],
     by simp [Mqtt.Spec.TopicStore.empty]⟩
 
-/-! ### histories that also contain topics beginning with '$'
+/-! ### histories that also contain topics beginning with '$' and the empty topic
 
 Operations on a topic beginning with '$' change neither side: the entry points
-turn them away (`checkSys`), the specification ignores them.  So the refinement
-holds over every history without empty levels; the abstract store never holds a
-filter beginning with '$'. -/
+turn them away (`checkTopic`), the specification ignores them.  The same holds
+for the empty topic (no topic name and no filter, MQTT-4.7.3-1; finding B6,
+repaired): `checkTopic` turns it away, the specification rejects it as an
+invalid filter and never holds it.  So the refinement holds over every history
+whose topics have no empty level or are empty (`admitted`); the abstract store
+never holds a filter beginning with '$'. -/
+
+/-- what a history may contain: topics without empty level (everything outside
+finding B3) and the empty topic -/
+def admitted (s : List UInt8) : Bool := noEmptyLevel s || s.isEmpty
+
+theorem admitted_of_noEmptyLevel (s : List UInt8) (h : noEmptyLevel s = true) : admitted s = true := by
+  simp [admitted, h]
+
+theorem admitted_nil : admitted [] = true := rfl
+
+theorem admitted_cases (s : List UInt8) (h : admitted s = true) : noEmptyLevel s = true ∨ s = [] := by
+  simp only [admitted, Bool.or_eq_true, List.isEmpty_iff] at h
+  exact h
 
 theorem good_of (t : List UInt8) (h1 : noEmptyLevel t = true) (h2 : dollar t = false) : good t = true := by
   simp [good, h1, h2]
 
-theorem step_inv_any (mt : MemTopics) (subs : List Sub) (op : Op) (hg : noEmptyLevel (opTopic op) = true)
+theorem validFilter_nil : validFilter [] = false := by decide
+
+/-- one operation on a topic the entry points refuse: the trie stays, and so do
+the abstract store's subscriptions -/
+theorem step_inv_refused (mt : MemTopics) (subs : List Sub) (op : Op) (hc : checkTopic (opTopic op) = true)
     (h : Inv mt.sroot subs) (hnd : ∀ e ∈ subs, dollar e.filter = false) :
-    Inv (modelStep mt op).1.sroot (specSubs subs op) ∧ ∀ e ∈ specSubs subs op, dollar e.filter = false := by
-  cases hd : dollar (opTopic op) with
-  | false =>
-    refine ⟨step_inv mt subs op (good_of _ hg hd) h, ?_⟩
-    cases op with
-    | sub f q sub =>
-      simp only [opTopic] at hd
-      simp only [specSubs, hd, Bool.false_eq_true, ↓reduceIte]
-      split
+    (modelStep mt op).1.sroot = mt.sroot ∧ specSubs subs op = subs := by
+  have hno : ∀ e ∈ subs, e.filter ≠ opTopic op := by
+    intro e he x
+    rw [checkTopic_eq, Bool.or_eq_true, List.isEmpty_iff] at hc
+    rcases hc with hc | hc
+    · have := h.valid e he
+      rw [x, hc] at this
+      exact absurd this (by decide)
+    · rw [← x, hnd e he] at hc; exact absurd hc (by simp)
+  cases op with
+  | sub f q sub =>
+    simp only [opTopic] at hc hno
+    rw [modelStep_sub_sys _ _ _ _ hc]
+    refine ⟨rfl, ?_⟩
+    simp only [specSubs]
+    split
+    · rfl
+    · split
+      · rfl
+      · split
+        · rfl
+        · rename_i hd _ hv
+          -- a valid filter not beginning with '$' passes `checkTopic`
+          have hd' : dollar f = false := by simpa using hd
+          have hv' : validFilter f = true := by simpa using hv
+          rw [checkTopic_of_validFilter f hv' hd'] at hc
+          exact absurd hc (by simp)
+  | unsub f sub =>
+    simp only [opTopic] at hc hno
+    rw [modelStep_unsub_sys _ _ _ hc]
+    refine ⟨rfl, ?_⟩
+    simp only [specSubs]
+    split
+    · rfl
+    · rw [List.filter_eq_self]
+      intro e he
+      simp [hno e he]
+  | unsubAll f =>
+    simp only [opTopic] at hc hno
+    rw [modelStep_unsubAll_sys _ _ hc]
+    refine ⟨rfl, ?_⟩
+    simp only [specSubs]
+    rw [List.filter_eq_self]
+    intro e he
+    simp [hno e he]
+  | subs t q => rw [modelStep_subs]; exact ⟨rfl, rfl⟩
+  | retain t q p => rw [modelStep_retain]; exact ⟨rfl, rfl⟩
+  | retained f => rw [modelStep_retained]; exact ⟨rfl, rfl⟩
+
+theorem specSubs_no_dollar (subs : List Sub) (op : Op) (hnd : ∀ e ∈ subs, dollar e.filter = false) :
+    ∀ e ∈ specSubs subs op, dollar e.filter = false := by
+  cases op with
+  | sub f q sub =>
+    simp only [specSubs]
+    split
+    · exact hnd
+    · split
       · exact hnd
       · split
         · exact hnd
-        · intro e he
+        · rename_i hd _ _
+          intro e he
           simp only [List.mem_append, List.mem_filter, List.mem_singleton] at he
           rcases he with he | rfl
           · exact hnd e he.1
-          · exact hd
-    | unsub f sub =>
-      simp only [specSubs]
-      split
-      · exact hnd
-      · intro e he; exact hnd e (List.mem_filter.mp he).1
-    | unsubAll f => intro e he; exact hnd e (List.mem_filter.mp he).1
-    | subs t q => exact hnd
-    | retain t q p => exact hnd
-    | retained f => exact hnd
+          · simpa using hd
+  | unsub f sub =>
+    simp only [specSubs]
+    split
+    · exact hnd
+    · intro e he; exact hnd e (List.mem_filter.mp he).1
+  | unsubAll f => intro e he; exact hnd e (List.mem_filter.mp he).1
+  | subs t q => exact hnd
+  | retain t q p => exact hnd
+  | retained f => exact hnd
+
+theorem step_inv_any (mt : MemTopics) (subs : List Sub) (op : Op) (hg : admitted (opTopic op) = true)
+    (h : Inv mt.sroot subs) (hnd : ∀ e ∈ subs, dollar e.filter = false) :
+    Inv (modelStep mt op).1.sroot (specSubs subs op) ∧ ∀ e ∈ specSubs subs op, dollar e.filter = false := by
+  refine ⟨?_, specSubs_no_dollar subs op hnd⟩
+  cases hc : checkTopic (opTopic op) with
   | true =>
-    have hc : checkSys (opTopic op) = true := hd
-    cases op with
-    | sub f q sub =>
-      simp only [opTopic] at hd hc
-      rw [modelStep_sub_sys _ _ _ _ hc]
-      simp only [specSubs, hd, ↓reduceIte]
-      exact ⟨h, hnd⟩
-    | unsub f sub =>
-      simp only [opTopic] at hd hc
-      rw [modelStep_unsub_sys _ _ _ hc]
-      simp only [specSubs, hd, ↓reduceIte]
-      exact ⟨h, hnd⟩
-    | unsubAll f =>
-      simp only [opTopic] at hd hc
-      rw [modelStep_unsubAll_sys _ _ hc]
-      have : subs.filter (fun e => !(e.filter == f)) = subs := by
-        rw [List.filter_eq_self]
-        intro e he
-        have : e.filter ≠ f := by intro x; rw [← x, hnd e he] at hd; exact absurd hd (by simp)
-        simp [this]
-      simp only [specSubs, this]
-      exact ⟨h, hnd⟩
-    | subs t q => rw [modelStep_subs]; exact ⟨h, hnd⟩
-    | retain t q p => rw [modelStep_retain]; exact ⟨h, hnd⟩
-    | retained f => rw [modelStep_retained]; exact ⟨h, hnd⟩
+    obtain ⟨e1, e2⟩ := step_inv_refused mt subs op hc h hnd
+    rw [e1, e2]; exact h
+  | false =>
+    obtain ⟨hne, hd⟩ := (checkTopic_false_iff _).mp hc
+    rcases admitted_cases _ hg with hg | hg
+    · exact step_inv mt subs op (good_of _ hg hd) h
+    · exact absurd hg hne
 
 theorem run_inv_any_aux (ops : List Op) :
-    ∀ (mt : MemTopics) (s : S), (∀ op ∈ ops, noEmptyLevel (opTopic op) = true) → Inv mt.sroot s.subs →
+    ∀ (mt : MemTopics) (s : S), (∀ op ∈ ops, admitted (opTopic op) = true) → Inv mt.sroot s.subs →
       (∀ e ∈ s.subs, dollar e.filter = false) →
       Inv (ops.foldl (fun mt op => (modelStep mt op).1) mt).sroot
           (ops.foldl (fun s op => (step s op).1) s).subs ∧
@@ -392,9 +449,10 @@ theorem run_inv_any_aux (ops : List Op) :
     · rw [step_subs]; exact h1
     · rw [step_subs]; exact h2
 
-/-- after any history without empty levels - operations on topics beginning
-with '$' included - the trie refines the abstract store -/
-theorem run_inv_any (ops : List Op) (hg : ∀ op ∈ ops, noEmptyLevel (opTopic op) = true) :
+/-- after any history of admitted topics (no empty level, or the empty topic) -
+operations on topics beginning with '$' included - the trie refines the
+abstract store -/
+theorem run_inv_any (ops : List Op) (hg : ∀ op ∈ ops, admitted (opTopic op) = true) :
     Inv (mrun ops).sroot (srun ops).subs :=
   (run_inv_any_aux ops _ _ hg
     ⟨WF_empty, by simp [MemTopics.new, abs_empty, absS, Mqtt.Spec.TopicStore.empty],
@@ -425,7 +483,7 @@ theorem subscribers_refines (mt : MemTopics) (subs : List Sub) (t : List UInt8) 
   have hvq : validQos q = true := by rw [validQos_iff]; simpa using hq
   obtain ⟨r, hr, hp⟩ := smatch_char mt.sroot (split t) q h.wf
   refine ⟨r, ?_, ?_⟩
-  · rw [subscribers_of_not_sys _ _ _ (good_checkSys t hg)]
+  · rw [subscribers_of_not_sys _ _ _ (good_checkTopic t hg)]
     simp only [hvq, Bool.not_true, Bool.false_eq_true, ↓reduceIte, SNode.smatch]
     rw [← e1, ← e2] at hr
     exact hr
@@ -440,7 +498,7 @@ theorem subscribers_refines (mt : MemTopics) (subs : List Sub) (t : List UInt8) 
 
 theorem subscribe_outcome (mt : MemTopics) (f : List UInt8) (q s : Nat) (hg : good f = true) :
     (mt.subscribe 2 f q s).2 = if q ≤ 2 ∧ validFilter f = true then some q else none := by
-  rw [subscribe_of_not_sys _ _ _ _ _ (good_checkSys f hg)]
+  rw [subscribe_of_not_sys _ _ _ _ _ (good_checkTopic f hg)]
   simp only [validQos_iff, SNode.sinsert]
   by_cases hq : q ≤ 2
   · have hq' : ¬ q > 2 := by omega
@@ -453,7 +511,7 @@ theorem subscribe_outcome (mt : MemTopics) (f : List UInt8) (q s : Nat) (hg : go
 theorem unsubscribe_outcome (mt : MemTopics) (subs : List Sub) (f : List UInt8) (s : Nat)
     (h : Inv mt.sroot subs) (hg : good f = true) :
     (mt.unsubscribe f (some s)).2 = subs.any (fun e => e.sub == s && e.filter == f) := by
-  rw [unsubscribe_of_not_sys _ _ _ (good_checkSys f hg)]
+  rw [unsubscribe_of_not_sys _ _ _ (good_checkTopic f hg)]
   simp only [SNode.sremove]
   cases hv : validFilter f with
   | false =>
